@@ -78,7 +78,7 @@ def _value_shards(tier):
         for b in (False, True):
             if DS.NS_MODES[ns] in ("bundle_default", "bundle_own_prefix") and not b:
                 continue
-            for vk in (0, 5, 6, 9, 12):
+            for vk in (0, 5, 6, 9, 12, 14, 15, 16, 18):
                 out.append({"attr": 0, "vk": vk, "ns": ns, "bundle": b})
                 if tier == "thorough":
                     out.append({"attr": 1, "vk": vk, "ns": ns, "bundle": b})
